@@ -1,0 +1,89 @@
+//go:build verif
+
+// Package c08 re-exports, for the /verif harness of property C08 only, the parts
+// of the root package and of the internal packages that a different module
+// cannot reach. Compiled only with -tags verif.
+package c08
+
+import (
+	dragonboat "github.com/lni/dragonboat/v4"
+	"github.com/lni/dragonboat/v4/config"
+	"github.com/lni/dragonboat/v4/internal/fileutil"
+	"github.com/lni/dragonboat/v4/internal/rsm"
+	"github.com/lni/dragonboat/v4/internal/server"
+	"github.com/lni/dragonboat/v4/internal/transport"
+	"github.com/lni/dragonboat/v4/internal/vfs"
+	pb "github.com/lni/dragonboat/v4/raftpb"
+	sm "github.com/lni/dragonboat/v4/statemachine"
+)
+
+type (
+	Node                 = dragonboat.VerifC08Node
+	StateMachine         = rsm.StateMachine
+	Task                 = rsm.Task
+	SSRequest            = rsm.SSRequest
+	SSReqType            = rsm.SSReqType
+	INode                = rsm.INode
+	ISnapshotter         = rsm.ISnapshotter
+	IManagedStateMachine = rsm.IManagedStateMachine
+	View                 = rsm.VerifC08View
+	SessionView          = rsm.VerifC08Session
+	IFS                  = vfs.IFS
+	SSEnv                = server.SSEnv
+	Chunk                = transport.Chunk
+)
+
+const (
+	Periodic      = rsm.Periodic
+	UserRequested = rsm.UserRequested
+	Exported      = rsm.Exported
+	Streaming     = rsm.Streaming
+)
+
+var (
+	// NewNode is dragonboat.NewVerifC08Node.
+	NewNode = dragonboat.NewVerifC08Node
+	// NewStateMachine is rsm.NewStateMachine.
+	NewStateMachine = rsm.NewStateMachine
+	// NewChunk is transport.NewChunk (the receiving side of snapshot streams).
+	NewChunk = transport.NewChunk
+	// MetadataFilename is the name of the metadata file of a snapshot directory.
+	MetadataFilename = server.MetadataFilename
+)
+
+// LRUMaxSessionCount reads rsm.LRUMaxSessionCount.
+func LRUMaxSessionCount() uint64 { return rsm.LRUMaxSessionCount }
+
+// SetLRUMaxSessionCount sets the exported package variable rsm.LRUMaxSessionCount.
+func SetLRUMaxSessionCount(n uint64) { rsm.LRUMaxSessionCount = n }
+
+// NewRegularSM, NewConcurrentSM, NewOnDiskSM wrap a user state machine the way
+// NodeHost.StartReplica / StartConcurrentReplica / StartOnDiskReplica do.
+func NewRegularSM(cfg config.Config, u sm.IStateMachine, done <-chan struct{}) IManagedStateMachine {
+	return rsm.NewNativeSM(cfg, rsm.NewInMemStateMachine(u), done)
+}
+func NewConcurrentSM(cfg config.Config, u sm.IConcurrentStateMachine, done <-chan struct{}) IManagedStateMachine {
+	return rsm.NewNativeSM(cfg, rsm.NewConcurrentStateMachine(u), done)
+}
+func NewOnDiskSM(cfg config.Config, u sm.IOnDiskStateMachine, done <-chan struct{}) IManagedStateMachine {
+	return rsm.NewNativeSM(cfg, rsm.NewOnDiskStateMachine(u), done)
+}
+
+// ViewOf is (*rsm.StateMachine).VerifC08View.
+func ViewOf(s *StateMachine) View { return s.VerifC08View() }
+
+// NewMemFS returns the in-memory file system of internal/vfs.
+func NewMemFS() IFS { return vfs.NewMemFS() }
+
+// MkdirAll is fileutil.MkdirAll.
+func MkdirAll(dir string, fs IFS) error { return fileutil.MkdirAll(dir, fs) }
+
+// ReadSnapshotMetadata reads the pb.Snapshot record stored in a snapshot
+// directory (what tools.ImportSnapshot reads from an exported snapshot).
+func ReadSnapshotMetadata(dir string, fs IFS) (ss pb.Snapshot, err error) {
+	err = fileutil.GetFlagFileContent(dir, server.MetadataFilename, &ss, fs)
+	return ss, err
+}
+
+// IsShrunk is rsm.IsShrunkSnapshotFile.
+func IsShrunk(fp string, fs IFS) (bool, error) { return rsm.IsShrunkSnapshotFile(fp, fs) }
